@@ -24,7 +24,7 @@ REQUIRED = ['backends/gdb_plugin/extract.py:extract_message', 'backends/gdb_plug
 
 def plan(tier, seed):
     if tier == 'quick':
-        return [{'n': 1300, 'gdb_shim': True} for _ in range(15)] + [{'mode': 'tierb', 'scripts': 1, 'events': 300, 'gdb_shim': True}]
+        return [{'n': 5000, 'gdb_shim': True} for _ in range(14)] + [{'mode': 'tierb', 'scripts': 1, 'events': 400, 'gdb_shim': True} for _ in range(2)]
     return [{'n': 30000, 'gdb_shim': True} for _ in range(56)] + [{'mode': 'tierb', 'scripts': 5, 'events': 500, 'gdb_shim': True} for _ in range(8)]
 
 
